@@ -79,12 +79,18 @@ DIRECTED = {
         op(o="spawn", num=3), IDLE, DRAIN, op(o="hstart", kind="gac"), DRAIN),
     # a long history: ids and group indices grow past 9 and 99, with flushes and cancellations in between (C10/C11/C13)
     "long_history": S(
-        {"cls": "SimpleTaskPool", "size": 4, "simple": {"imm": True, "ecb": "sync", "method": True}},
+        {"cls": "SimpleTaskPool", "size": 4, "simple": {"imm": True, "ecb": "sync", "method": True}, "nofollow": True},
         *([op(o="spawn", num=3), IDLE] * 5 + [op(o="hstart", kind="flush"), IDLE] + [op(o="spawn", num=3), IDLE] * 8
           + [op(o="get_ids", names=["start-group-0", "start-group-9", "start-group-12"]), op(o="cancel", ids=[9]), op(o="cancel", ids=[10, 3]),
              op(o="hstart", kind="flush"), IDLE] + [op(o="spawn", num=3), IDLE] * 22
           + [op(o="cancel", ids=[99]), op(o="cancel", ids=[104]), op(o="cancel", ids=[200]),
              op(o="get_ids", names=["start-group-34", "start-group-3"]), op(o="hstart", kind="gac"), DRAIN])),
+    # the empty string is a group name like any other (explicit, unique, queryable)
+    "empty_group_name": S(
+        {"cls": "TaskPool", "size": 2, "reqs": [{"kind": "apply", "num": 1, "gname": ""}, {"kind": "map", "num": 2, "nc": 1, "gname": ""},
+                                                 {"kind": "apply", "num": 1}]},
+        op(o="spawn", t=0), IDLE, op(o="spawn", t=1), op(o="spawn", t=2), IDLE, op(o="get_ids", names=[""]), op(o="get_ids", names=[0, 2]),
+        op(o="cancel_group", g=""), IDLE, op(o="spawn", t=1), IDLE, DRAIN),
     # stop() on a SimpleTaskPool whose running ids have gaps, negative and oversized arguments (C14)
     "stop_with_gaps": S(
         {"cls": "SimpleTaskPool", "size": -1, "simple": {"ccb": "async"}},
